@@ -413,6 +413,23 @@ theorem constructor_ascii_substitutes (enc r : PStr) (rest : List PStr) (declare
 example : unicodeDammit [nWindows1252] none .ascii (ofS "a" ++ [0x99, 0x85])
     = .ok (ofS "a(TM)...") false (some nWindows1252) := of_evalsTo (by decide +kernel)
 
+/-- No conversion requested, at the observable: when `find_codec` resolves the first known encoding to a
+    single-byte codec that decodes the BOM-stripped input, `unicode_markup` is that plain decoding — each
+    byte 0x80–0x9F appears as the character the codec assigns to it (the Windows-1252 character itself under
+    `windows-1252`). -/
+theorem constructor_no_conversion (enc r : PStr) (rest : List PStr) (declared : Option PStr) (t : List (Option Nat))
+    (hf : findCodec enc = some r) (ht : codecOf r = some (.table t)) (markup : Bytes) (hne : markup ≠ []) (u : PStr)
+    (hu : decodeTable t (stripBom markup).1 = some u) :
+    unicodeDammit (enc :: rest) declared .none markup = .ok u false (some r) := by
+  apply unicode_markup_is_first_conversion enc r rest declared .none markup u hne hf
+  rw [none_mode_is_plain_decode, ht]
+  simpa [decodeStrict] using hu
+
+example : unicodeDammit [nWindows1252] none .none [0x93, 0xE9, 0x9F] = .ok [0x201C, 0xE9, 0x178] false (some nWindows1252) :=
+  of_evalsTo (by decide +kernel)
+example : decodeTable Gen.Detwingle.cp1252 (stripBom [0x93, 0xE9, 0x9F]).1 = some [0x201C, 0xE9, 0x178] :=
+  of_evalsTo (by decide +kernel)
+
 /-- A process as a sequence of constructor calls.  The code-mirror threads the only state the calls
     could share — none: `tried_encodings` is reset per object (dammit.py:778) and `find_codec` reads only
     class constants — so every call's outcome is what the same call gives on its own, whatever came
@@ -452,6 +469,21 @@ theorem detwingleImpl_eq (bs : Bytes) : detwingleImpl bs = detwingle bs := detwi
 
 example : detwingleImpl [0x61, 0x93, 0xE2, 0x82, 0xAC, 0x94] =
     some [0x61, 0xE2, 0x80, 0x9C, 0xE2, 0x82, 0xAC, 0xE2, 0x80, 0x9D] := of_evalsTo (by decide +kernel)
+
+/-- The public entry point with its default arguments (`main_encoding="utf8"`,
+    `embedded_encoding="windows-1252"`) passes the argument checks and returns what the loop computes; so
+    every theorem below about `detwingle` is a theorem about `UnicodeDammit.detwingle(in_bytes)`. -/
+theorem detwingle_call_default (bs : Bytes) :
+    ∃ out, detwingle bs = some out ∧ detwingleCall bs (ofS "utf8") (ofS "windows-1252") = .ok out := by
+  obtain ⟨out, hout⟩ := Option.isSome_iff_exists.mp (detwingle_total bs)
+  refine ⟨out, hout, ?_⟩
+  have h1 : asciiLower ((ofS "windows-1252").map fun c => if c = 95 then 45 else c) = ofS "windows-1252" := by decide +kernel
+  have h2 : asciiLower (ofS "utf8") = ofS "utf8" := by decide +kernel
+  unfold detwingleCall
+  simp only [h1, h2, true_or, not_true_eq_false, if_false, detwingleImpl_eq, hout]
+
+example : detwingleCall [0x61, 0x93] (ofS "latin-1") (ofS "windows-1252") = .notImplemented := of_evalsTo (by decide +kernel)
+example : detwingleCall [0x61, 0x93] (ofS "UTF-8") (ofS "WINDOWS_1252") = .ok [0x61, 0xE2, 0x80, 0x9C] := of_evalsTo (by decide +kernel)
 
 /-- **Valid UTF-8 is returned unchanged** — for every byte list that is the UTF-8 encoding of a
     sequence of Unicode scalar values. -/
